@@ -38,6 +38,7 @@ EXPLANATION = (
   + common.SHARED_CLAUSES['color'] + common.SHARED_CLAUSES['text']
   + common.SHARED_CLAUSES['chains']
   + common.SHARED_CLAUSES['rubykids']
+  + common.SHARED_CLAUSES['timing']
 )
 RULE_TEXT = "per extraction call site x exception class, per styling step, per element class x flag, per arithmetic use of an Optional time"
 UNDECIDED = ["par/seq/dur resolution and implicit durations as values", "white-space and anonymous-span semantics", "time expression arithmetic per syntax (h/m/s/ms/f/t)"]
@@ -536,7 +537,7 @@ def check_timing_arithmetic(ctx):
 
 
 def run(ctx):
-  common.check_shared_helpers(ctx, color=True, text=True, chains=True, rubykids=True)
+  common.check_shared_helpers(ctx, color=True, text=True, chains=True, rubykids=True, timing=True)
   ix = ctx.ix
   ty = Typer(ix)
   r = exc.Raises(ix, ty)
